@@ -3,6 +3,10 @@ COMMON_NOTE = ("Trusted: Lean 4.33 kernel (axioms propext, Classical.choice, Quo
                "the gofacts translator, the mharness/mdriver correspondence harness. The hand-written model is tied to the code "
                "only by the correspondence run; what is modelled vs. covered by correspondence only is listed in the evidence file and DESIGN.md. ")
 CLAIMED = {
+ "C01": dict(
+   text="Lean 4 theorems for all byte strings / all record streams: TSV decode(encode s) = s and separator-freeness, TSV line round trip, CSV field, record and whole-stream round trip through a model of the forked encoding/csv reader state machine (any legal separator, with/without --quote-all, on an explicit representable-domain predicate), split/join law. Models tied to the real readers/writers in-process (identical bytes written, identical records read, on 22 format/option variants), Go encoding/csv + encoding/json as independent standard readers, arbitrary legal quoting styles read by Miller, mutated documents.",
+   note="JSON, XTAB, PPRINT, NIDX, markdown, csvlite have no Lean model: their round trip is checked on the implementation only (spec predicate), YAML/DKVPX/DCF/recutils not covered. CSV stream theorem requires CR-free cells (CR not followed by LF is covered by correspondence only) and LF mode.",
+   technique="Lean 4 proof (induction over byte lists / record lists) + in-process differential round trip", design="§4 C01"),
  "C06": dict(
    text="Lean 4 theorems over a model of pkg/scan + mlrval_infer.go (scanner = declarative grammar for all strings; inference = grammar classification for all strings outside three decidable overflow classes, each with a kernel-checked counterexample; no panic for all strings; -S/-A/JSON-string laws), with the digit tables, ScanType enum and inferrer tables regenerated from the source on every run and the hand-written inferrer bodies tied by exhaustive short-string + boundary correspondence against the real code.",
    note="Lean models of strconv.ParseInt/ParseFloat compared bit-for-bit with Go on every run. The JSON decoder / DSL literal wiring is covered only through the FromInferredType/FromString entry points.",
